@@ -48,6 +48,9 @@ func (m *rtModel) start() {
 
 // c14Run: one harness body; nops operations, with or without backoff.
 func c14Run(nops int, backoff bool) {
+	if nops == 1 {
+		backoff = vrt.Bool("bo")
+	}
 	errFail := errors.New("fail")
 	var outcomes [4]int
 	outcomes[0] = vrt.Int("o0", 0, 2)
@@ -225,6 +228,11 @@ func c14Run(nops int, backoff bool) {
 		})
 	})
 }
+
+// H_C14_Step: ONE operation from each reachable status of the machine (transition table): the
+// first instance succeeds / fails / runs (case split o0), with or without backoff (case split
+// bo), then one operation (case split op0); outcomes of later instances are symbolic.
+func H_C14_Step() { c14Run(1, false) }
 
 // H_C14_Machine2: two symbolic operations, no backoff.
 func H_C14_Machine2() { c14Run(2, false) }
